@@ -368,6 +368,17 @@ Proof.
     cbn. destruct H2 as [->| ->]; [reflexivity|apply orb_true_r].
 Qed.
 
+(* several command lines: a file named in ANY of the lines - the first, a middle one, the last - is consumed *)
+Theorem command_lines_nodes_consumed phony lines extra x :
+  In x (command_lines_extra_deps phony lines extra) <->
+  (exists line c, In line lines /\ In (x, c) line /\ (c = true \/ phony = false)) \/ In x extra.
+Proof.
+  unfold command_lines_extra_deps. rewrite command_nodes_consumed. split.
+  - intros [[c [H1 H2]]|H]; [left|now right]. apply in_concat in H1 as [line [Hl Hx]]. exists line, c. auto.
+  - intros [[line [c [Hl [Hx H2]]]]|H]; [left|now right]. exists c. split; [|assumption].
+    apply in_concat. exists line. auto.
+Qed.
+
 (* install(args) calls default(args): the explicit list is then non-empty and contains the argument *)
 Lemma install_in_default s items x :
   In (x, true) items -> In x (d_outputs (dstep s (DAdd items true))).
